@@ -535,3 +535,17 @@ fn parse_postgres_interval(s: &str) -> Result<OwnedValue> {
 
     Ok(OwnedValue::Interval(micros, days, months))
 }
+
+/// Verification hooks (compiled only with `--cfg kahflane_turdb_verif`).
+#[cfg(kahflane_turdb_verif)]
+pub mod verif_calendar {
+    pub fn is_leap_year(year: i32) -> bool {
+        super::is_leap_year(year)
+    }
+    pub fn days_in_month(year: i32, month: u32) -> u32 {
+        super::days_in_month(year, month)
+    }
+    pub fn date_to_days_since_epoch(year: i32, month: u32, day: u32) -> i32 {
+        super::date_to_days_since_epoch(year, month, day)
+    }
+}
